@@ -386,6 +386,8 @@ PURE_PREFIXES = (
     "<std::path::PathBuf as std::ops::Deref>::deref",
     "<std::ffi::OsString as std::ops::Deref>::deref",
     "std::cmp::PartialEq::", "std::cmp::PartialOrd::",
+    "<std::vec::Vec<T, A> as std::ops::Index", "core::slice::index::<impl std::ops::Index", "core::str::traits::<impl std::ops::Index",
+    "std::cmp::Ord::cmp", "std::cmp::Ord::min", "std::cmp::Ord::max",
     "std::cmp::impls::<impl std::cmp::PartialEq",
     "std::cmp::impls::<impl std::cmp::PartialOrd",
     "core::str::traits::<impl std::cmp::PartialEq",
